@@ -13,6 +13,7 @@ pub mod deltaid;
 pub mod history;
 pub mod array_chain;
 pub mod junk_blocks;
+pub mod cross_array;
 pub mod merge;
 pub mod stage_api;
 pub mod pack;
@@ -23,6 +24,7 @@ pub mod tree;
 pub fn run(name: &str, thorough: bool, seed: u64) -> Option<Report> {
     match name {
         "merge_arrays" => Some(merge::run(thorough, seed)),
+        "cross_array" => Some(cross_array::run(thorough, seed)),
         "stage_api" => Some(stage_api::run(thorough, seed)),
         "junk_blocks" => Some(junk_blocks::run(thorough, seed)),
         "array_chain" => Some(array_chain::run(thorough, seed)),
@@ -44,6 +46,7 @@ pub fn run(name: &str, thorough: bool, seed: u64) -> Option<Report> {
 pub fn replay(name: &str, case: &Value) -> Value {
     match name {
         "merge_arrays" => merge::replay(case),
+        "cross_array" => cross_array::replay(case),
         "stage_api" => stage_api::replay(case),
         "junk_blocks" => junk_blocks::replay(case),
         "array_chain" => array_chain::replay(case),
